@@ -7,7 +7,7 @@ import json,sys,re
 m=json.load(open(sys.argv[1])); m["confirmed_by_coordinator"]={"demo_passes_clean":True,"demo_fails_patched":True,"unit_tests_pass_patched":True,
  "ran":"tools/tryseed.sh (demo on clean + patched worktree, cmake --build + ctest on patched worktree, VERIF_REPO=<patched worktree> bin/vcheck)"}
 log=open(sys.argv[4],errors="replace").read()
-m["our_check"]={"result":sys.argv[3],"violation_lines":re.findall(r"^VIOLATION.*$",log,re.M)[:3],"what":re.findall(r" -> (.*)$",log,re.M)[:3]}
+m["our_check"]={"result":sys.argv[3],"violation_lines":re.findall(r"^VIOLATION.*$",log,re.M)[:3],"what":(re.findall(r"^VIOLATION.*\n\[[^\]]*\]\s+-> (.*)$",log,re.M) or re.findall(r" -> (.*)$",log,re.M))[:3]}
 json.dump(m,open(sys.argv[2],"w"),indent=1)
 PY
 echo kept $d
